@@ -9,6 +9,7 @@ import (
 	"sort"
 	"strconv"
 	"strings"
+	"sync/atomic"
 	"time"
 )
 
@@ -449,6 +450,8 @@ func TestVerifReplay(t *testing.T) {
 	ovPath := filepath.Join(outRoot, "out", "gen", "overlay.json")
 	os.WriteFile(ovPath, ob, 0o644)
 	env := append(goEnv(), "VERIF_CEX="+path)
+	atomic.AddInt32(&replayRunning, 1)
+	defer atomic.AddInt32(&replayRunning, -1)
 	out, err := runCmd(repoDir, env, 5*time.Minute, "go", "test", "-v", "-count=1", "-vet=off", "-overlay", ovPath, "-run", "^TestVerifReplay$", "./"+rel)
 	for _, line := range strings.Split(out, "\n") {
 		if strings.HasPrefix(line, "REPLAY-RESULT: ") {
